@@ -44,6 +44,9 @@ func gpgWanted(s spec, i int, thorough bool) bool {
 		if s.hints%4 == 2 {
 			return false // "_CONSOLE": gpg wants a terminal for for-your-eyes-only data
 		}
+		if s.op == "symmetric" && len(s.pass) == 0 {
+			return false // an empty passphrase cannot be handed to gpg in loopback mode
+		}
 		if len(s.msg) > 50000 {
 			return s.read == 0
 		}
@@ -115,7 +118,12 @@ func (w *world) gpgChecks(outs []produced) {
 				c.Eval(1)
 				data, rerr := os.ReadFile(strings.TrimSuffix(files[pos+n-1], ".gpg"))
 				enc := p.s.op != "sign"
-				ok := rerr == nil && bytes.Equal(data, p.s.msg) && (!enc || s.dec) && (p.s.signer == "" || s.good) && !s.bad
+				same := rerr == nil && bytes.Equal(data, p.s.msg)
+				if h := hintsOf(p.s.hints); rerr == nil && (h == nil || !h.IsBinary) {
+					// literal packets of format 't': on output gpg converts to the native line ending by dropping CR octets
+					same = bytes.Equal(bytes.ReplaceAll(data, []byte("\r"), nil), bytes.ReplaceAll(p.s.msg, []byte("\r"), nil))
+				}
+				ok := same && (!enc || s.dec) && (p.s.signer == "" || s.good) && !s.bad
 				if ok {
 					c.Outcome("gpg accepts package output: " + p.s.op)
 					return
@@ -125,7 +133,7 @@ func (w *world) gpgChecks(outs []produced) {
 					return
 				}
 				c.Violation("GnuPG does not accept a message produced by "+p.s.op, map[string]any{"case": p.s.String(), "decryption_ok": s.dec, "goodsig": s.good, "badsig": s.bad,
-					"output_matches": rerr == nil && bytes.Equal(data, p.s.msg), "aborted": aborted, "stderr": string(clip(serr, 600)), "message_hex": fmt.Sprintf("%x", clip(p.out, 300))})
+					"output_matches": same, "aborted": aborted, "stderr": string(clip(serr, 600)), "message_hex": fmt.Sprintf("%x", clip(p.out, 300))})
 			}
 			for _, ln := range strings.Split(string(out), "\n") {
 				switch {
